@@ -21,7 +21,7 @@ import z3
 from . import ops
 from .core import BOOL, INT, SV, EngineError, PyRaise, Unsupported, lift
 from .heap import MapRef, Row, SeqRef
-from .values import DictView, LazyMap, Obj, SeqVal
+from .values import DictView, LazyMap, Obj, SeqVal, SymList
 
 
 class LoopContract:
@@ -124,8 +124,8 @@ def _havoc_locals(it, frame, names, lc):
                 kind = "str"
             elif isinstance(cur, (bytes, bytearray)) or (isinstance(cur, SeqVal) and cur.elem_kind == "byte"):
                 kind = "bytes"
-            elif isinstance(cur, SeqVal):
-                kind = "liststr"
+            elif isinstance(cur, SeqVal) and cur.elem_kind == "str":
+                kind = "qstr"
             else:
                 # loop-local temporaries (objects, rows, None) are re-assigned before use in each
                 # iteration; leave them, but poison so that a stale read is noticed
@@ -133,8 +133,10 @@ def _havoc_locals(it, frame, names, lc):
                 continue
         if kind == "bytes":
             frame.locals[nm] = SeqVal("byte", it.ctx.fresh_term(z3.SeqSort(z3.BitVecSort(8)), nm), "bytes")
-        elif kind == "liststr":
-            frame.locals[nm] = SeqVal("str", it.ctx.fresh_term(z3.SeqSort(z3.StringSort()), nm), "list")
+        elif kind == "qstr":
+            from .core import QSTR
+
+            frame.locals[nm] = SeqVal("str", it.ctx.fresh_term(QSTR, nm), "list")
         else:
             frame.locals[nm] = it.ctx.fresh(kind, nm)
 
@@ -266,6 +268,7 @@ class DictIterInfo:
         self.role = m.spec.role
         self.visited = None
         self.k = None
+        self.ordinal = 0
 
     def _vis(self, term):
         return VisitedSet(term, self.role)
@@ -276,6 +279,9 @@ class DictIterInfo:
     def arbitrary(self, it):
         v = it.ctx.fresh_term(z3.ArraySort(INT, BOOL), "visited")
         self.visited = v
+        if it.stack:
+            # expose the enclosing loop's visited set to the invariants of nested loops
+            it.stack[-1].locals[f"visited_{self.ordinal}"] = self._vis(v)
         dom0 = self.dom0
         it.ctx.add_universal((self.role,), lambda kk: z3.Implies(z3.Select(v, kk), z3.Select(dom0, kk)), "visited<=dom")
         return [self._vis(v)]
@@ -359,14 +365,16 @@ def exec_for(it, node, frame):
         lc = it.loop_contracts.get(key)
         if lc is None:
             raise Unsupported(f"for loop over a symbolic dict without loop contract: {key}")
-        return _cut_loop(it, node, frame, key, lc, "for", DictIterInfo(itv))
+        di = DictIterInfo(itv)
+        di.ordinal = key[2]
+        return _cut_loop(it, node, frame, key, lc, "for", di)
     if isinstance(itv, SymRange):
         key = _loop_key(it, frame)
         lc = it.loop_contracts.get(key)
         if lc is None:
             raise Unsupported(f"for loop over a symbolic range without loop contract: {key}")
         return _cut_loop(it, node, frame, key, lc, "for", RangeIterInfo(itv))
-    if isinstance(itv, (SeqVal, SeqRef, LazyMap)):
+    if isinstance(itv, (SeqVal, SeqRef, LazyMap, SymList)):
         raise Unsupported("for loop over a symbolic sequence")
     _loop_key(it, frame)
     if isinstance(itv, dict):
@@ -419,7 +427,7 @@ def eval_comprehension(it, node, frame, kind):
             return
         g = gens[gi]
         itv = it.eval(g.iter, sub if gi > 0 else frame)
-        if isinstance(itv, SeqVal) and len(gens) == 1 and not g.ifs and kind == "list":
+        if isinstance(itv, SymList) and len(gens) == 1 and not g.ifs and kind == "list":
             raise _LazyNeeded(itv)
         if isinstance(itv, (DictView, MapRef, SeqVal, SeqRef, LazyMap)):
             raise Unsupported("comprehension over a symbolic container")
@@ -453,7 +461,7 @@ class _LazyNeeded(Exception):
         self.src = src
 
 
-def _lazy_list_comp(it, node, frame, src: SeqVal):
+def _lazy_list_comp(it, node, frame, src):
     """[body(x) for x in xs], len(xs) symbolic.
 
     D-law: either the body raises for some element (the exception of the *first* such
@@ -465,7 +473,7 @@ def _lazy_list_comp(it, node, frame, src: SeqVal):
 
     g = node.generators[0]
     ctx = it.ctx
-    ln = z3.Length(src.term)
+    ln = src.len_t
 
     def run_body(val):
         sub = Frame(frame.name, frame.globals, parent=frame, defcls=frame.defcls, func=frame.func)
@@ -477,7 +485,7 @@ def _lazy_list_comp(it, node, frame, src: SeqVal):
     if k == 1:
         j = ctx.fresh("int", "j")
         ctx.add_fact(z3.And(j.term >= 0, j.term < ln))
-        v = ops.seq_elem(it, src, j)
+        v = ops.mk("str", src.elem(j.term))
         try:
             run_body(v)
         except PyRaise:
